@@ -4,6 +4,7 @@ import OpcuaModel.Model.NodeIdParse
   Driver for C04.  A NodeID is five tokens: <mask> <ns> <nid> <bidHex> <gidHex|nil>.
     str   <node>                      → <hex of String()> | panic
     eq    <node> <node>               → true | false | panic
+    reg   <node> <node>               → hit | miss | panic   (TypeRegistry: registered under the first, New(second))
     parse <textHex>                   → err | ok <node>                       (ua.ParseNodeID)
     parsex <textHex> nil              → err | ok <node> <nsuHex> <serverIndex> (ua.ParseExpandedNodeID, nil table)
     parsex <textHex> tbl <uriHex>*    → …                                      (with a namespace table)
@@ -57,6 +58,14 @@ def handle : List String → String
     | some x, some y =>
       match toString x, toString y with
       | some _, some _ => if equal x y then "true" else "false"
+      | _, _ => "panic"
+    | _, _ => "bad-op"
+  | "reg" :: a1 :: a2 :: a3 :: a4 :: a5 :: b =>
+    -- a registry keyed by the string form (typereg.go) holding one entry registered under a
+    match parseNode [a1, a2, a3, a4, a5], parseNode b with
+    | some x, some y =>
+      match toString x, toString y with
+      | some _, some _ => if (regLookup [(toString x, 1)] y).isSome then "hit" else "miss"
       | _, _ => "panic"
     | _, _ => "bad-op"
   | ["parse", t] =>
